@@ -54,6 +54,26 @@ fn name_of(mut i: u64) -> String {
     s
 }
 
+/// Another role name: `name` with some (or all) of its non-alphanumeric characters written as
+/// percent escapes, upper or lower case. A mapping that leaves '%' (or the escaped character) alone
+/// sends both names to one file.
+fn spell_escaped(name: &str, r: &mut Rng) -> String {
+    let all = r.chance(1, 2);
+    let lower = r.chance(1, 4);
+    let mut out = String::new();
+    for c in name.chars() {
+        if !c.is_ascii_alphanumeric() && (all || r.chance(1, 2)) {
+            let mut buf = [0u8; 4];
+            for b in c.encode_utf8(&mut buf).bytes() {
+                out.push_str(&if lower { format!("%{b:02x}") } else { format!("%{b:02X}") });
+            }
+        } else {
+            out.push(c);
+        }
+    }
+    out
+}
+
 fn reserved(name: &str) -> bool {
     let stem = name;
     let versioned = |base: &str| stem.strip_suffix(base).is_some_and(|p| p.strip_suffix('.').is_some_and(|d| !d.is_empty() && d.bytes().all(|c| c.is_ascii_digit())));
@@ -117,7 +137,7 @@ impl Check for C16 {
         "C16"
     }
     fn rule(&self) -> String {
-        "delegated role names over {/ \\ . % ? # : space \\x01 é a 1}: enumerated to length 4 (thorough: all 22620; quick: every 2nd), a dictionary of 22 hostile names, and seeded names to length 64; 1..3 such roles per repository, both consistent-snapshot settings; each run loads (with datastore), caches metadata, and builds + writes the same roles with the real editor; non-trivial = a name contains a path- or URL-significant character and its file was requested/written; distinct = distinct canonical trace".into()
+        "delegated role names over {/ \\ . % ? # : space \\x01 é a 1}: enumerated to length 4 (thorough: all 22620; quick: every 2nd), a dictionary of 22 hostile names, and seeded names to length 64; 1..3 such roles per repository, a quarter of them with a twin that spells one of the names with percent escapes, both consistent-snapshot settings; each run loads (with datastore), caches metadata, and builds + writes the same roles with the real editor; non-trivial = a name contains a path- or URL-significant character and its file was requested/written; distinct = distinct canonical trace".into()
     }
     fn assumptions(&self) -> Vec<String> {
         vec![
@@ -152,8 +172,11 @@ impl Check for C16 {
                 Tier::Thorough => i,
             };
             names.push(name_of(ni));
-            if r.chance(1, 2) {
-                names.push(name_of(r.below(n_enum())));
+            match r.below(4) {
+                0 | 1 => names.push(name_of(r.below(n_enum()))),
+                // the same name spelt with percent escapes: must still be another file
+                2 => names.push(spell_escaped(&names[0], &mut r)),
+                _ => {}
             }
         }
         names.dedup();
@@ -181,6 +204,12 @@ impl Check for C16 {
             };
             if !names.contains(&nm) {
                 names.push(nm);
+            }
+        }
+        if names.len() < 3 && r.chance(1, 4) {
+            let twin = spell_escaped(&names[0], &mut r);
+            if !names.contains(&twin) {
+                names.push(twin);
             }
         }
         Sc { world: r.below(9973), consistent: r.chance(1, 2), names }
@@ -402,7 +431,23 @@ impl Check for C16 {
                 Err(e) => {
                     // a clean repository must load unless the name cannot be represented
                     if !any_reserved {
-                        o.harness(format!("clean repository with role names {:?} failed to load: {}", sc.names, variant(e)));
+                        if matches!(o.verdict, crate::engine::Verdict::Violation { .. }) {
+                            // already explained by a request or directory rule above
+                            return o;
+                        }
+                        let longest = sc.names.iter().map(|n| n.chars().map(|c| if c.is_ascii_alphanumeric() { 1 } else { 3 * c.len_utf8() }).sum::<usize>()).max().unwrap_or(0);
+                        if longest >= 230 {
+                            o.inconclusive("encoded-role-name-longer-than-a-file-name-may-be");
+                            return o;
+                        }
+                        // Nothing but the role names varies in this world and every document is
+                        // cleanly signed: a refusal means a name was not turned into a plain,
+                        // distinct entry (the file could not be created, the URL could not be
+                        // formed, or one role's file was served or stored as another's).
+                        o.violate(
+                            format!("clean-repository-refused-because-of-role-names:{}", variant(e)),
+                            format!("clean repository with role names {:?} failed to load: {}", sc.names, variant(e)),
+                        );
                         return o;
                     }
                 }
